@@ -17,6 +17,7 @@ pub fn run(rep: &mut Report, tier: Tier, sel: &[&str], eval: Eval<'_>) {
             "num" => u_num(rep, tier, eval),
             "edge" => u_edge(rep, eval),
             "dt" => u_dt(rep, tier, eval),
+            "raw" => u_raw(rep, tier, eval),
             "stmt" => u_stmt(rep, tier, eval),
             "stmt3" => u_stmt3(rep, tier, eval),
             "stmt-small" => u_stmt_small(rep, tier, eval),
@@ -242,6 +243,26 @@ fn u_dt(rep: &mut Report, tier: Tier, eval: Eval<'_>) {
     let f = |s: &str, acc: &mut Acc| eval(s.as_bytes(), "U-dt", acc);
     let (total, acc) = sweep_list(&cases, &f);
     rep.absorb("U-dt", &format!("edit distance <= {} from {} seed date-times + field sweeps, 2 frames", k, DT_SEEDS.len()), total, true, t0, acc);
+}
+
+/// the value-level strings on their own (no `k=` frame): for the value, key and date-time entry points
+fn u_raw(rep: &mut Report, tier: Tier, eval: Eval<'_>) {
+    let t0 = Instant::now();
+    let mut cases: Vec<String> = dt_strings(tier.pick(1, 2));
+    cases.extend(edge_literals());
+    for f in BYTE_FRAMES {
+        if let Some((_, v)) = f.split_once(" = ") {
+            cases.push(v.trim_end().to_string());
+        }
+    }
+    let f = |s: &str, acc: &mut Acc| eval(s.as_bytes(), "U-raw", acc);
+    let (total, acc) = sweep_list(&cases, &f);
+    rep.absorb("U-raw", "date-time strings (edit neighbourhood + sweeps), range-edge number literals and the values of the seed frames, unframed", total, true, t0, acc);
+    let n = tier.pick(4, 5);
+    let t0 = Instant::now();
+    let f = |s: &str, acc: &mut Acc| eval(s.as_bytes(), "U-raw", acc);
+    let (total, acc) = sweep_upto(&NUM17, n, "", "", &f);
+    rep.absorb("U-raw(num)", &format!("all strings <= {} over NUM17, unframed", n), total, true, t0, acc);
 }
 
 fn u_stmt(rep: &mut Report, tier: Tier, eval: Eval<'_>) {
